@@ -175,7 +175,7 @@ func PJ(nl *sbom.NodeList) any {
 	}
 	b, err := protojson.Marshal(nl)
 	if err != nil {
-		return err.Error()
+		return map[string]any{"unprintable_as_json": err.Error(), "coq": coqfmt.NodeList(nl)}
 	}
 	return jsonRaw(b)
 }
